@@ -243,3 +243,248 @@ def end_to_end(ctx, I, prop: str, rule_found: str, rule_absent: str) -> int:
                               "the rule is found, the match begins at the first character of the expected first instruction's "
                               "record and ends with the '|' of the expected last one")
     return n
+
+
+# ------------------------------------------------------------------ canonical witnesses of skeletons (positive end-to-end)
+class _W:
+    """builds, from the expected tree of a skeleton (skeletons.E), one stream that the rule MUST be found in: every
+    leaf becomes a record / field that contains its name (or equals it under the full-match flag), `$or` takes its
+    first alternative, `$and_any_order` its children in reversed order, `$not` an unrelated unit, a repetition its lower
+    bound (at least once when the upper bound allows), captures repeat the text they bound, register-family captures
+    spell one register at the width of each occurrence"""
+
+    REGS = {"&genreg": {"64": "%rbx", "32": "%ebx", "16": "%bx", "8h": "%bh", "8l": "%bl", "": "%rbx"},
+            "&indreg": {"64": "%rsi", "32": "%esi", "16": "%si", "8l": "%sil", "": "%rsi"},
+            "&stackreg": {"64": "%rsp", "32": "%esp", "16": "%sp", "8l": "%spl", "": "%rsp"},
+            "&basereg": {"64": "%rbp", "32": "%ebp", "16": "%bp", "8l": "%bpl", "": "%rbp"}}
+
+    def __init__(self, mn_full: bool, op_full: bool) -> None:
+        self.mn_full, self.op_full = mn_full, op_full
+        self.k = 0
+        self.names: List[str] = []
+        self.bound: Dict[str, List[Any]] = {}        # capture name -> bound symbols (operand / instruction text)
+        self.unsupported: Optional[str] = None
+
+    def fresh(self, p: str) -> Any:
+        self.k += 1
+        return X(f"{p}{self.k}")
+
+    def name_syms(self, name: Any, full: bool) -> List[Any]:
+        from .models import Sym
+        if isinstance(name, Sym):
+            if name.tag not in self.names:
+                self.names.append(name.tag)
+            core: List[Any] = [N(name.tag)]
+        else:
+            core = list(str(name))
+        return core if full else [self.fresh("p")] + core + [self.fresh("s")]
+
+    def times(self, e) -> int:
+        lo, hi = e.expected_times()
+        if lo > 40:
+            self.unsupported = "repetition bound too large for a written-out witness"
+            return 0
+        return lo
+
+    # ---- operand level -----------------------------------------------------
+    def operand(self, e) -> Optional[List[List[Any]]]:
+        """the operand fields (each a symbol list) that e consumes"""
+        n = self.times(e)
+        one = self.operand_once(e)
+        if one is None:
+            return None
+        out: List[List[Any]] = []
+        for i in range(n):
+            out += [list(f) for f in (one if i == 0 else (self.operand_once(e) or []))]
+        return out
+
+    def operand_once(self, e) -> Optional[List[List[Any]]]:
+        name = e.name
+        if e.fields is not None:                       # $deref
+            f = e.fields
+            def val(x) -> Optional[List[Any]]:
+                if hasattr(x, "name"):
+                    if x.kids is not None:
+                        if x.name == "$or":
+                            return val(x.kids[0])
+                        self.unsupported = "operator inside a $deref field"
+                        return None
+                    return self.field_value(x.name, reg=True)
+                return self.field_value(x, reg=True)
+            a = val(f["main_reg"]) if "main_reg" in f else None
+            if a is None:
+                self.unsupported = self.unsupported or "$deref without main_reg"
+                return None
+            syms: List[Any] = ["["] + self._pct(a)
+            if "register_multiplier" in f:
+                b = val(f["register_multiplier"])
+                if b is None:
+                    return None
+                syms += ["+"] + self._pct(b)
+                if "constant_multiplier" in f:
+                    c = val(f["constant_multiplier"])
+                    if c is None:
+                        return None
+                    syms += ["*"] + c
+            elif "constant_multiplier" in f:
+                c = val(f["constant_multiplier"])
+                if c is None:
+                    return None
+                syms += ["+"] + c
+            if "constant_offset" in f:
+                kk = val(f["constant_offset"])
+                if kk is None:
+                    return None
+                syms += ["+"] + kk
+            return [syms + ["]"]]
+        if e.kids is None:
+            v = self.field_value(name, reg=False)
+            return None if v is None else [v]
+        if name == "$or":
+            return self.operand(e.kids[0])
+        if name in ("$and", "$and_any_order"):
+            kids = list(e.kids) if name == "$and" else list(reversed(e.kids))
+            out: List[List[Any]] = []
+            for kd in kids:
+                r = self.operand(kd)
+                if r is None:
+                    return None
+                out += r
+            return out
+        if name == "$not":
+            return [[self.fresh("z")]]
+        self.unsupported = f"operand-level {name}"
+        return None
+
+    def _pct(self, syms: List[Any]) -> List[Any]:
+        return syms if syms and syms[0] == "%" else ["%"] + syms
+
+    def field_value(self, name: Any, reg: bool) -> Optional[List[Any]]:
+        """the text of an operand (or deref component) that a name / capture stands for"""
+        if isinstance(name, str) and name.startswith("&"):
+            fam = next((f for f in self.REGS if name.startswith(f)), None)
+            if fam is not None:
+                suffix = name.rsplit(".", 1)[1].lower() if "." in name and name.rsplit(".", 1)[1].lower() in ("64", "32", "16", "8h", "8l") else ""
+                base = name.rsplit(".", 1)[0] if suffix else name
+                if suffix not in self.REGS[fam]:
+                    self.unsupported = f"{fam} at width {suffix}"
+                    return None
+                self.bound.setdefault(base, [fam])
+                return list(self.REGS[fam][suffix])
+            if name not in self.bound:
+                self.bound[name] = [self.fresh("c")]
+            return list(self.bound[name])
+        if isinstance(name, str) and _looks_hex_h(name):
+            self.unsupported = "h-suffixed name (known finding)"
+            return None
+        if reg:
+            return self.name_syms(name, True)
+        return self.name_syms(name, self.op_full)
+
+    # ---- instruction level --------------------------------------------------
+    def instr(self, e) -> Optional[List[List[Any]]]:
+        """the records e consumes"""
+        n = self.times(e)
+        out: List[List[Any]] = []
+        for _ in range(n):
+            r = self.instr_once(e)
+            if r is None:
+                return None
+            out += r
+        return out
+
+    def instr_once(self, e) -> Optional[List[List[Any]]]:
+        name = e.name
+        if isinstance(name, str) and name.startswith("&") and e.kids is None:
+            if name not in self.bound:
+                mn, ops = [self.fresh("im")], [[self.fresh("io")]]
+                self.bound[name] = [("rec", mn, ops)]
+            _, mn, ops = self.bound[name][0]
+            self.k += 1
+            return [record(f"a{self.k}", list(mn), [list(o) for o in ops])]
+        if isinstance(name, str) and name in ("$and", "$and_any_order", "$or", "$not"):
+            if name == "$or":
+                return self.instr(e.kids[0])
+            if name == "$not":
+                if any(getattr(kd, "name", None) == "$not" for kd in (e.kids or [])):
+                    self.unsupported = "a negated negation has no canonical one-instruction witness"
+                    return None
+                self.k += 1
+                return [record(f"a{self.k}", [self.fresh("zm")], [[self.fresh("zo")]])]
+            kids = list(e.kids) if name == "$and" else list(reversed(e.kids))
+            out: List[List[Any]] = []
+            for kd in kids:
+                r = self.instr(kd)
+                if r is None:
+                    return None
+                out += r
+            return out
+        # a mnemonic item
+        ops: List[List[Any]] = []
+        for kd in (e.kids or []):
+            r = self.operand(kd)
+            if r is None:
+                return None
+            ops += r
+        self.k += 1
+        return [record(f"a{self.k}", self.name_syms(name, self.mn_full), ops)]
+
+
+def _all_names(y: Any) -> List[str]:
+    from .models import Sym
+    out: List[str] = []
+
+    def rec(x: Any) -> None:
+        if isinstance(x, Sym):
+            if x.tag not in out:
+                out.append(x.tag)
+        elif isinstance(x, dict):
+            for k, v in x.items():
+                rec(k)
+                rec(v)
+        elif isinstance(x, (list, tuple)):
+            for v in x:
+                rec(v)
+    rec(y)
+    return out
+
+
+def _looks_hex_h(name: str) -> bool:
+    import re as _re
+    return bool(_re.fullmatch(r"[0-9a-fA-F]+h", name)) and name.lower() not in ("ah", "bh", "ch", "dh")
+
+
+def witnesses(ctx, I, prop_rule: str, tags: Sequence[str] = (), skip_tags: Sequence[str] = ("hex",)) -> int:
+    """every skeleton of the quick family (4 flag settings): its canonical witness stream is found, from the first
+    character of the first record to the '|' of the last"""
+    from .compose import analyse_skeleton
+    from .skeletons import quick_family
+    n = skipped = 0
+    for sk in quick_family():
+        if tags and not (set(tags) & set(sk.tags)):
+            continue
+        if set(skip_tags) & set(sk.tags):
+            continue
+        for an in analyse_skeleton(I, sk.yaml()):
+            if not an.ok:
+                continue
+            mn, op = bool(an.flags.get("mn_full")), bool(an.flags.get("op_full"))
+            w = _W(mn, op)
+            w.names = _all_names(sk.yaml())          # names that the witness does not use are tokens too (they occur nowhere)
+            recs = w.instr(sk.root())
+            if recs is None or not recs or w.unsupported:
+                skipped += 1
+                continue
+            syms, spans = stream(recs)
+            construct = f"{sk.label} [mnemonics-full-match={mn}, operands-full-match={op}]"
+            try:
+                got = find(rx.parse(an.regex), syms, w.names)
+            except tokrx.Undecided as exc:
+                ctx.defer(f"witness search undecided: {exc} [{construct}]")
+                continue
+            n += 1
+            ctx.check(got == (0, len(syms)), prop_rule, construct, f"found {got} in a stream of {len(syms)} symbols ({len(recs)} records)",
+                      "the canonical listing of the rule (first alternatives, reversed any-order, lower repetition bounds, "
+                      "unrelated units for $not, repeated captures) is matched from its first to its last character")
+    ctx.extra["witness_skipped"] = skipped
+    return n
